@@ -208,6 +208,39 @@ fn gen_number(rng: &mut Rng, ty: u8) -> Vec<u8> {
                 s.push(b'-');
             }
         }
+        4 => {
+            // fixed-width fields: a representable (or just not representable) value padded with
+            // many zeros -- the digit count says nothing about the magnitude
+            let base = if rng.chance(1, 2) { min } else { max };
+            let neg = base.starts_with('-') || rng.chance(1, 8);
+            let lim: Vec<u8> = base.trim_start_matches('-').bytes().collect();
+            let value: Vec<u8> = match rng.below(5) {
+                0 => lim.clone(),
+                1 => vec![*rng.pick(b"0123456789")],
+                2 => vec![],
+                3 => {
+                    // one more digit than the limit: overflows whatever the padding
+                    let mut v = lim.clone();
+                    v.push(*rng.pick(b"0123456789"));
+                    v
+                }
+                _ => {
+                    // fewer digits than the limit: always representable
+                    let n = rng.below(lim.len());
+                    (0..n).map(|_| *rng.pick(b"0123456789")).collect()
+                }
+            };
+            if neg {
+                s.push(b'-');
+            }
+            let zeros = *rng.pick(&[
+                1usize, 2, 5, 6, 7, 8, 9, 10, 13, 14, 15, 16, 17, 18, 23, 24, 25, 31, 32, 33, 36, 37, 38, 39, 40, 41, 47, 48,
+                64, 100, 300,
+            ]);
+            let zeros = if cfg!(miri) { zeros.min(41) } else { zeros };
+            s.extend(std::iter::repeat(b'0').take(zeros));
+            s.extend(value);
+        }
         _ => {
             if rng.chance(1, 3) {
                 s.push(b'-');
